@@ -31,6 +31,8 @@ module Nat :
   val ltb : nat -> nat -> bool
 
   val min : nat -> nat -> nat
+
+  val even : nat -> bool
  end
 
 val tl : 'a1 list -> 'a1 list
@@ -39,7 +41,11 @@ val nth_error : 'a1 list -> nat -> 'a1 option
 
 val rev : 'a1 list -> 'a1 list
 
+val concat : 'a1 list list -> 'a1 list
+
 val flat_map : ('a1 -> 'a2 list) -> 'a1 list -> 'a2 list
+
+val fold_left : ('a1 -> 'a2 -> 'a1) -> 'a2 list -> 'a1 -> 'a1
 
 val skipn : nat -> 'a1 list -> 'a1 list
 
@@ -123,6 +129,10 @@ module N :
   val modulo : n -> n -> n
  end
 
+type 'a res =
+| Ok of 'a
+| Panic
+
 val omap : ('a1 -> 'a2) -> 'a1 option -> 'a2 option
 
 type str = n list
@@ -166,6 +176,34 @@ type uData = { u_is_whitespace : (n -> bool);
                u_to_upper : (n -> n list); u_to_lower : (n -> n list);
                u_width : (n -> nat); u_gcat : (n -> gcat);
                u_incb_extend : (n -> bool); u_incb_linker : (n -> bool) }
+
+val gcat_eqb : gcat -> gcat -> bool
+
+val gcat_of : uData -> n -> gcat
+
+type pair_result =
+| PNotBreak
+| PBreak
+| PExtended
+| PInCb
+| PRegional
+| PEmoji
+
+val is_ctl : gcat -> bool
+
+val check_pair : gcat -> gcat -> pair_result
+
+val incb_break : uData -> n list -> bool -> bool
+
+val ri_run : uData -> n list -> nat
+
+val emoji_break : uData -> n list -> bool
+
+val is_break : uData -> n list -> n -> bool
+
+val seg_go : uData -> n list -> n list -> str -> str list
+
+val useg : uData -> str -> str list
 
 val encode_char : n -> n list
 
@@ -341,3 +379,45 @@ val fop_session : fop -> nat option
 val w_observe : world -> fop -> fout -> fobs
 
 val w_run : uData -> world -> fop list -> fobs list
+
+val str_truncate : str -> nat -> str res
+
+val apply_bs_go : str list -> str -> nat list -> str res
+
+val apply_bs_impl : (str -> str list) -> str -> str res
+
+val bs_stack : str list -> str list
+
+val apply_bs : (str -> str list) -> str -> str
+
+type vres =
+| VValid
+| VInvalidMsg
+| VInvalid
+| VIncomplete
+| VError
+
+type dres =
+| DLine of str
+| DEof
+| DErr
+| DPanic
+
+val dlines_aux : str -> str -> str list
+
+val dlines : str -> str list
+
+val ends_with : str -> n -> bool
+
+val pop : str -> str
+
+val strip_terminator : str -> (str * bool) * bool
+
+val direct_go :
+  (str -> str list) -> (str -> vres) option -> str -> str list -> dres list
+
+val direct_all : (str -> str list) -> (str -> vres) option -> str -> dres list
+
+val brackets_go : str -> n list -> vres
+
+val bracket_validator : str -> vres
